@@ -182,6 +182,42 @@ func Finish(res *Result, rr rt.Result) {
 	}
 }
 
+// FoldEnvFaults adds the environment faults that fired in a run (counted by the simulator while
+// they happened, not merely configured) to the run's fault statistics. The runner calls it once
+// per run, after the world returned.
+func FoldEnvFaults(res *Result) {
+	if res == nil {
+		return
+	}
+	for reach, fault := range envFaults {
+		if n := res.Reach[reach]; n > 0 {
+			if res.Faults == nil {
+				res.Faults = map[string]int{}
+			}
+			res.Faults[fault] += n
+		}
+	}
+}
+
+// envFaults maps the kernel-level reach counters of environment behaviours to fault names.
+var envFaults = map[string]string{
+	"pipe.delivery-stalled":                                      "delivery-stall (2 s .. 15 min)",
+	"randomness-source.stalled-read":                             "randomness-source-stall",
+	"ot-io.send-blocked-before-consuming-payload":                "send-blocks-before-consuming-payload",
+	"ssa-writer.blocked":                                         "writer-blocks",
+	"net.deadline-exceeded":                                      "deadline-exceeded",
+	"receiver.busy-before-a-receive":                             "receiver-busy (1 s .. 10 min)",
+	"fail-then-carry-on.first-session-failed":                    "first-session-failed (connection reset or entropy failure)",
+	"fail-then-carry-on.sender-saw-the-failure":                  "connection-reset-in-first-batch",
+	"fail-then-carry-on.garbler-saw-the-failure":                 "connection-reset-in-first-session",
+	"fail-then-carry-on.first-join-failed":                       "address-in-use-at-first-join",
+	"fail-then-carry-on.unsupported-circuit-refused":             "unsupported-circuit-refused",
+	"fail-then-carry-on.marshal-reported-the-write-error":        "write-error (full disk)",
+	"fail-then-carry-on.round3-failed-for-lack-of-randomness":    "entropy-failure-in-round-3",
+	"fail-then-carry-on.compilation-failed-on-the-same-compiler": "failed-compilation-first",
+	"fail-then-carry-on.receive-refused-a-wrong-result-length":   "misused-receive-refused",
+}
+
 // NoProgressDefault is the livelock bound used by worlds whose tasks only
 // ever wait on bytes, messages and locks (no compute loops with yields).
 const NoProgressDefault = 1_000_000
